@@ -7,7 +7,7 @@ ASSUMPTIONS = ['the RFC 4180 reader of the direct test is Python\'s csv module w
                'free-form text options: only the structural statement (fields joined by the separator) is checked, fields cannot be recovered when separators occur in data']
 TRUSTED = []
 
-STRS = ['a', '', 'a,b', 'q"q', 'line\nbreak', 'cr\rlf\r\n', 'tab\there', 'é', ' lead', 'trail ', '""', ',', '"', 'x y', '日本']
+STRS = ['a', '', 'a,b', 'q"q', 'line\nbreak', 'cr\rlf\r\n', 'tab\there', 'é', ' lead', 'trail ', '""', ',', '"', 'x y', '日本', '=1+1', '-5', '+x', '@home', "'q", '-', '=']
 def value(rnd, depth=1):
     x = rnd.random()
     if x < 0.35: return rnd.choice(STRS)
